@@ -116,17 +116,109 @@ def container_variants(v, floats32=True, arrays_only=False):
 
 def aged_signal(rng, cls, values, dt, **kw):
     """an eqsig Signal/AccSignal holding (values, dt) that reached this state through a HISTORY instead of the constructor
-    (label, object): built with a record of another length and reset, caches filled before or after the reset, …
+    (label, object): built with a record of another length and reset, caches filled before or after the reset, a shallow copy whose sibling
+    was changed, a child derived from analysed parents, an object that went through a windowed baseline correction or the deprecated
+    statistics generators before the record was replaced, …
     Every function that takes a signal object must treat these exactly like a fresh object."""
     values = np.array(values, dtype=float)
-    kind = rng.choice(['fresh', 'reset-other-length', 'reset-same-length', 'read-all', 'read-reset', 'reset-shorter'])
+    kinds = ['fresh', 'reset-other-length', 'reset-same-length', 'read-all', 'read-reset', 'reset-shorter']
+    is_acc = cls.__name__ == 'AccSignal'
+    n = len(values)
+    # round 7: state that survives in places clear_cache does not know about / objects derived from other objects
+    kinds += ['copy-fork', 'stats-then-reset']
+    if is_acc and n >= 4:
+        kinds += ['combined-child', 'windowed-correction-then-reset', 'resampled-child']
+    kind = rng.choice(kinds)
     if kind == 'fresh':
         return kind, cls(values, dt, **kw)
     if kind == 'read-all':
         s = cls(values, dt, **kw)
         _touch(s)
         return kind, s
-    n = len(values)
+    if kind == 'copy-fork':
+        # a shallow copy shares every mutable attribute with its sibling: changing and reading the sibling must not reach this object
+        import copy
+        s = cls(values, dt, **kw)
+        if rng.random() < 0.7:
+            _touch(s)
+        sib = copy.copy(s)
+        try:
+            sib.reset_values(np.array([rng.uniform(-3, 3) for _ in range(n)]))
+            _touch(sib)
+        except Exception:
+            pass
+        return kind, s
+    if kind == 'stats-then-reset':
+        other = np.array([rng.uniform(-1, 1) for _ in range(n)])
+        s = cls(other, dt, **kw)
+        _touch(s)
+        for nm in ('generate_cumulative_stats', 'generate_peak_values', 'generate_displacement_and_velocity_series'):
+            f = getattr(s, nm, None)
+            if f is not None:
+                try:
+                    f()
+                except Exception:
+                    pass
+        s.reset_values(values)
+        return kind, s
+    if kind == 'windowed-correction-then-reset':
+        other = np.array([rng.uniform(-1, 1) for _ in range(n)])
+        s = cls(other, dt, **kw)
+        if rng.random() < 0.5:
+            _touch(s)
+        i0 = rng.randint(1, max(1, n // 2))
+        i1 = rng.randint(i0 + 1, n) if rng.random() < 0.7 else None
+        tz = (i0 * dt, None if i1 is None else i1 * dt)
+        for nm in ('set_zero_residual_displacement_and_velocity', 'set_zero_residual_velocity'):
+            try:
+                getattr(s, nm)(timezone=tz)
+                _touch(s)
+            except Exception:
+                pass
+        s.reset_values(values)
+        return kind, s
+    if kind == 'combined-child':
+        # a new object made by the library itself from analysed parents (angle 0: ns * cos(0) + we * sin(0) == ns exactly)
+        import eqsig
+        ns = cls(values, dt, **kw)
+        we = cls(np.zeros(n), dt)
+        try:
+            ns.generate_displacement_and_velocity_series(trap=False)
+        except Exception:
+            pass
+        _touch(ns)
+        _touch(we)
+        try:
+            child = eqsig.combine_at_angle(ns, we, 0.0)
+            if isinstance(child, cls) and np.array_equal(child.values, values) and child.dt == dt:
+                for k_, v_ in kw.items():
+                    setattr(child, k_, v_)
+                return kind, child
+        except Exception:
+            pass
+        return 'fresh', cls(values, dt, **kw)
+    if kind == 'resampled-child':
+        # a child made by the resampling helpers from an analysed parent, then given the record
+        from eqsig.fns import time_step
+        other = np.array([rng.uniform(-1, 1) for _ in range(n + rng.randint(0, 3))])
+        parent = cls(other, dt, **kw)
+        _touch(parent)
+        try:
+            from eqsig import stockwell
+            if len(other) <= 300:
+                stockwell.get_max_stockwell_freq(parent)
+        except Exception:
+            pass
+        try:
+            child = (time_step.interp_to_approx_dt if rng.random() < 0.5 else time_step.resample_to_approx_dt)(parent, dt)
+            if isinstance(child, cls) and child.dt == dt:
+                child.reset_values(values)
+                for k_, v_ in kw.items():
+                    setattr(child, k_, v_)
+                return kind, child
+        except Exception:
+            pass
+        return 'fresh', cls(values, dt, **kw)
     if kind == 'reset-other-length':
         other = np.array([rng.uniform(-1, 1) for _ in range(n + rng.randint(1, max(2, n)))])
     elif kind == 'reset-shorter':
